@@ -39,7 +39,9 @@ EXPLANATION = (
     "memory) is served by its branch in BOTH memories. "
     "R-C18-echo: every response constructor passes the request's type_ and opaque (mapped through the MemRespMsg field "
     "order extracted from MemMsg.py), test=0, len=req.len for reads/AMOs, zero-extended read data / old AMO value. "
-    "R-C18-pairing: one update_once block, one MagicMemoryFL instance built with the wrapper's own mem_nbytes, loop ranges "
+    "R-C18-pairing: one update_once request-processing block which is the ONLY block that modifies the memory (a store queued "
+    "in up_mem and committed by another / a clocked block is not visible to the next request of the same cycle), "
+    "one MagicMemoryFL instance built with the wrapper's own mem_nbytes, loop ranges "
     "over exactly 0..nports-1 (evaluated for nports 1..4 and longer message-type lists) and serves ports "
     "independently (no break/return in the port loop, no loop-carried variable), per port i the "
     "request is taken and the memory touched only under a guard implying request-valid AND response-ready of the SAME "
@@ -410,7 +412,10 @@ def _ctx(repo, rel, cls):
     c.blocks = [b for b in blocks if memcalls(b)]
     if not c.blocks:
         raise AnalysisError(f"anchor vanished: no update block of {cls}.construct calls the memory")
-    c.up = c.blocks[0]
+    # the request-processing block: the one that decodes request type codes (other blocks touching the memory are judged by
+    # R-C18-pairing)
+    serving = [b for b in c.blocks if any(isinstance(n, ast.Attribute) and n.attr == 'type_' for n in ast.walk(b))]
+    c.up = serving[0] if serving else c.blocks[0]
     c.q = f'{cls}.construct.{c.up.name}'
     body = strip_doc(c.up.body)
     if len(body) != 1 or not isinstance(body[0], ast.For) or not isinstance(body[0].target, ast.Name) or body[0].orelse:
@@ -784,8 +789,12 @@ def rule_dispatch(repo):
                       f"never executed against the memory", chain.lineno)
                 continue
             if kinds != [want]:
-                r.bad(c.m, c.q, cons, f"a {name} request must perform exactly one s.mem.{want}(...); it performs "
-                      f"{kinds or 'no memory access'}", chain.lineno)
+                aside = [norm(x)[:70] for x in trace if isinstance(x, ast.Expr) and isinstance(x.value, ast.Call)
+                         and c.req in names_in(x) and not c.memcalls(x) and not any(x is s_[0] for s_ in c.sinks)]
+                r.bad(c.m, c.q, cons, f"a {name} request must perform exactly one s.mem.{want}(...) before the next request is "
+                      f"processed; it performs {kinds or 'no memory access'}"
+                      + (f" and hands the request's fields to `{aside[0]}` instead (a deferred store is invisible to requests "
+                         f"processed later in the same cycle)" if aside else ''), chain.lineno)
                 continue
             if len(calls) != 1:
                 r.bad(c.m, c.q, cons, f"{len(calls)} memory accesses are performed for one request", calls[0].lineno)
@@ -1264,11 +1273,20 @@ def rule_pairing(repo):
                 r.bad(c.m, qualname(enclosing(call, (ast.FunctionDef,))), norm(call)[:70],
                       f"memory access does not go to the shared memory {c.mem}", call.lineno)
         # P2 one block, update_once
-        if len(c.blocks) == 1 and decorators(c.up) == ['update_once']:
-            r.ok(c.m, c.q, '@update_once, the only block touching the memory')
-        elif len(c.blocks) != 1:
-            r.bad(c.m, cq, 'blocks touching the memory: ' + ', '.join(b.name for b in c.blocks),
-                  "requests must be executed by ONE block (a single total order of memory accesses per cycle)", c.blocks[1].lineno)
+        # a store must reach the byte array inside the request-processing block, before the next request (a later port in the
+        # same cycle) is processed: no other block may modify the memory (a deferred / registered commit makes every request of
+        # a cycle read the pre-cycle image)
+        writers = [b for b in c.blocks if b is not c.up and any(x.func.attr in ('write', 'amo') for x in c.memcalls(b))]
+        if writers:
+            b = writers[0]
+            wc = [x for x in c.memcalls(b) if x.func.attr in ('write', 'amo')][0]
+            r.bad(c.m, f'{cq}.{b.name}', f"@{', @'.join(decorators(b))} {b.name}: {norm(wc)[:60]}",
+                  f"the memory is modified by block {b.name} (@{', '.join(decorators(b))}), not by the request-processing block "
+                  f"{c.up.name}: a store that is queued / committed elsewhere is not in the byte array when the next request of the "
+                  f"same cycle (a later port) reads it -- two AMOs on one word in one cycle both read the old value and one "
+                  f"update is lost, which no sequential order of the processed requests explains", wc.lineno)
+        elif decorators(c.up) == ['update_once']:
+            r.ok(c.m, c.q, '@update_once, the only block modifying the memory')
         else:
             r.bad(c.m, c.q, 'decorators: ' + ', '.join(decorators(c.up)), "up_mem must be an @update_once block: executed exactly "
                   "once per cycle (a combinational block may be re-executed and would repeat memory side effects)", c.up.lineno)
@@ -2575,6 +2593,10 @@ MUTANTS = [
     dict(name='cl-full-width-of-port-zero', file=CL, rule='R-C18-dispatch', edits=[
         dict(file=CL, old="          if len_ == 0: len_ = req_classes[i].data_nbits >> 3", new="          if len_ == 0: len_ = req_classes[0].data_nbits >> 3")]),
     _m('stream-wiring-helper-local-fixed-port', STREAM, "      s.req_stalls[i].recv //= s.ifc[i].req\n", "      req_stall = s.req_stalls[0]\n      req_stall.recv //= s.ifc[i].req\n", 'R-C18-pairing'),
+    dict(name='stream-stores-committed-at-clock-edge', file=STREAM, rule='R-C18-pairing', edits=[
+        dict(file=STREAM, old="    @update_once\n    def up_mem():\n\n      for i in range(nports):", new="    s.store_q = []\n\n    @update_ff\n    def up_store():\n      for addr, nbytes, data in s.store_q:\n        s.mem.write( addr, nbytes, data )\n      s.store_q.clear()\n\n    @update_once\n    def up_mem():\n\n      for i in range(nports):"),
+        dict(file=STREAM, old="            s.mem.write( req.addr, len_, req.data[0:len_<<3] )\n", new="            s.store_q.append( (int(req.addr), len_, req.data[0:len_<<3]) )\n")]),
+    _m('cl-write-queued-never-stored', CL, "            s.mem.write( req.addr, len_, req.data[0:len_<<3] )\n", "            s.pending = ( req.addr, len_, req.data[0:len_<<3] )\n", 'R-C18-dispatch'),
     # --- purity / FIFO shape
     _m('deq-pipe-no-copy', DELAY, "    s.pipeline[0] = clone_deepcopy(msg)\n\n  @non_blocking( lambda s: s.pipeline[-1] is not None )", "    s.pipeline[0] = msg\n\n  @non_blocking( lambda s: s.pipeline[-1] is not None )", 'R-C18-purity'),
     _m('deq-pipe-rotates-when-slot0-empty', DELAY, "        if s.pipeline[-1] is None:\n          s.pipeline.rotate()", "        if s.pipeline[0] is None:\n          s.pipeline.rotate()", 'R-C18-purity'),
@@ -2677,6 +2699,7 @@ EQUIV = [
         dict(file=STREAM, old="          len_ = int(req.len)\n          if len_ == 0: len_ = req_classes[i].data_nbits >> 3\n", new="          len_ = int(req.len) or full_nbytes[ i ]\n")]),
     _m('stream-wiring-helper-locals', STREAM, "      s.req_stalls[i].recv //= s.ifc[i].req\n      # s.req_stalls[i].send //= s.req_qs[i].recv\n      s.resp_qs[i].send    //= s.ifc[i].resp\n\n      s.req_stalls[i].send.rdy //= s.resp_qs[i].recv.rdy\n      s.req_stalls[i].send.val //= s.resp_qs[i].recv.val\n",
        "      req_stall = s.req_stalls[i]\n      resp_q    = s.resp_qs[i]\n\n      req_stall.recv //= s.ifc[i].req\n      resp_q.send    //= s.ifc[i].resp\n\n      req_stall.send.rdy //= resp_q.recv.rdy\n      req_stall.send.val //= resp_q.recv.val\n"),
+    _m('stream-extra-read-only-block', STREAM, "    @update_once\n    def up_mem():\n\n      for i in range(nports):", "    @update_once\n    def up_peek():\n      s.first_word = s.mem.read( 0, 4 )\n\n    @update_once\n    def up_mem():\n\n      for i in range(nports):"),
     _m('stall-rdy-conjuncts-swapped', STALL, "lambda s: s.stall_rgen.random() > s.stall_prob and s.send.rdy()", "lambda s: s.send.rdy() and s.stall_rgen.random() > s.stall_prob"),
 ]
 
